@@ -112,9 +112,21 @@ func (t Token) String() string {
 	case CommentToken:
 		return "<!--" + escapeCommentString(t.Data) + "-->"
 	case DoctypeToken:
-		return "<!DOCTYPE " + EscapeString(t.Data) + ">"
+		return "<!DOCTYPE " + escapeDoctypeString(t.Data) + ">"
 	}
 	return "Invalid(" + strconv.Itoa(int(t.Type)) + ")"
+}
+
+// escapeDoctypeString is like EscapeString but also escapes a leading white
+// space byte, which the tokenizer would otherwise skip after "<!DOCTYPE".
+func escapeDoctypeString(s string) string {
+	if len(s) > 0 {
+		switch s[0] {
+		case ' ', '\t', '\n', '\f':
+			return "&#" + strconv.Itoa(int(s[0])) + ";" + EscapeString(s[1:])
+		}
+	}
+	return EscapeString(s)
 }
 
 // span is a range of bytes in a Tokenizer's buffer. The start is inclusive,
